@@ -185,6 +185,9 @@ def check(run):
         dcr = G.Decor(rnd, extra_parens=rnd.choice([0, 0.2, 0.5]), blanks=rnd.choice([0, 0.3, 0.8]),
                       case=rnd.choice([0, 0.5, 1.0]), dollars=rnd.choice([0, 0.5]))
         one(t, G.spell(t, dcr), 'random-decorated')
+        if i % 3 == 0:
+            # blanks before and behind the whole formula mean nothing
+            one(t, rnd.choice(['', ' ']) + G.spell(t, dcr if i % 2 else G.MINIMAL) + rnd.choice([' ', '  ']), 'outer-blanks')
         if i < 3:
             run.sample({'tree': G.render(t), 'minimal': '=' + G.spell(t), 'decorated': '=' + G.spell(t, dcr)})
 
